@@ -17,9 +17,16 @@ func MatchWildcardRegexp(query string, exact bool) *regexp.Regexp {
 	const legalChars = `a-zA-Z0-9_:,\-\.`
 	// Everything except the wildcards is literal text: quote it, so that a '.' in a name only matches
 	// itself and text such as '(' cannot produce an invalid expression.
-	regexpQuery := regexp.QuoteMeta(strings.TrimSuffix(query, "/"))           // "/" and "" both address the root
-	regexpQuery = strings.ReplaceAll(regexpQuery, `\.\.\.`, `.*`)             // greedy
-	regexpQuery = strings.ReplaceAll(regexpQuery, `\*`, `[`+legalChars+`]*?`) // Not greedy
+	// "/" and "" both address the root. "..." is the multi-level wildcard only when it is a whole path element:
+	// inside a key value ([id=...], [id=a...b]) the dots are literal text
+	regexpQuery := ""
+	for _, elem := range SplitPath(strings.TrimSuffix(query, "/")) {
+		if elem == "..." {
+			regexpQuery += "/.*" // greedy
+			continue
+		}
+		regexpQuery += "/" + strings.ReplaceAll(regexp.QuoteMeta(elem), `\*`, `[`+legalChars+`]*?`) // Not greedy
+	}
 	if exact {
 		return regexp.MustCompile(fmt.Sprintf("^%s$", regexpQuery))
 	}
